@@ -106,7 +106,16 @@ pub fn generate(run_seed: u64, tier: Tier) -> Scenario {
         sim_seed: crate::prng::mix_label(run_seed, "sim"),
         history,
         only_crash_points: None,
-        bulk_kib_before_continue: if Rng::derive(run_seed, "bulk").chance(1, 8) { 1300 } else { 0 },
+        bulk_kib_before_continue: {
+            // 1 in 8 histories; a third of those write more than 4 MiB (beyond any plausible bound of
+            // a backward scan of the log)
+            let mut b = Rng::derive(run_seed, "bulk");
+            if b.chance(1, 8) {
+                if b.chance(1, 3) { 5200 } else { 1300 }
+            } else {
+                0
+            }
+        },
     }
 }
 
@@ -253,6 +262,7 @@ fn judge(dirs: &Dirs, cs: &CrashState, acked: &[(String, String)], bulk_kib: u32
     let at2 = at.clone();
     let sig2 = sig_at.clone();
     let threads2 = threads.clone();
+    let ensure_first = cs.index % 2 == 0;
     let rep = storesim::run_single("restart", move || {
         let st = w.st();
         let fail = |v: Violation| {
@@ -278,6 +288,29 @@ fn judge(dirs: &Dirs, cs: &CrashState, acked: &[(String, String)], bulk_kib: u32
                 if let Err(e) = st.log.append(&ev) {
                     fail(Violation { class: "append_fails_after_crash".into(), signature: format!("append_fails_after_crash:{sig2}"), detail: format!("crash {at2}: bulk session append failed: {e}") });
                     return;
+                }
+            }
+        }
+        if ensure_first {
+            match st.store.ensure_default() {
+                Err(e) => {
+                    if threads2.is_empty() {
+                        fail(Violation {
+                            class: "append_fails_after_crash".into(),
+                            signature: format!("ensure_default_fails_after_crash:{sig2}"),
+                            detail: format!("crash {at2}: ensure_default on the restarted store failed: {e}"),
+                        });
+                    }
+                }
+                Ok(t) => {
+                    if let Err(e) = st.store.append_message(&t, "post-crash".into(), "sim".into(), "to the default thread, first thing".into()) {
+                        fail(Violation {
+                            class: "append_fails_after_crash".into(),
+                            signature: format!("append_to_default_thread_fails_after_crash:{sig2}"),
+                            detail: format!("crash {at2}: ensure_default returned {t} but a post to it fails: {e}"),
+                        });
+                        return;
+                    }
                 }
             }
         }
@@ -311,8 +344,11 @@ fn judge(dirs: &Dirs, cs: &CrashState, acked: &[(String, String)], bulk_kib: u32
             );
         }
         // whatever the crash left of the thread index, the workspace's default thread must be
-        // obtainable and must accept a post
-        match st.store.ensure_default() {
+        // obtainable and must accept a post. A client asks for the default thread first thing after
+        // a restart or only after other work, so half of the crash states do it before the
+        // continuation appends and half after (with no index left, the first finds the thread in
+        // the log; the second comes after a branch has already written a new index).
+        let ensure_and_post = || match st.store.ensure_default() {
             Err(e) => {
                 if threads2.is_empty() {
                     fail(Violation {
@@ -331,6 +367,9 @@ fn judge(dirs: &Dirs, cs: &CrashState, acked: &[(String, String)], bulk_kib: u32
                     });
                 }
             }
+        };
+        if !ensure_first {
+            ensure_and_post();
         }
     });
     world.close();
@@ -694,7 +733,7 @@ impl Check for C05 {
         serde_json::to_value(sc).unwrap()
     }
     fn rule(&self) -> String {
-        "one run = one seeded history of 3-16 store operations (messages incl. frames larger than the 8 KiB writer buffer, full runs with compile/side-effects/cursor, runs with reply frames and a session snapshot, manual and automatic compaction, branch, handoff) executed once; EVERY mutating file-system effect boundary of the run (log, each sidecar and index, index.json tmp+rename, artifact tmp+rename) is a crash point: the captured on-disk state is restarted with a fresh EventLog+ContinuityStore, replayed, continued with further appends (1 in 8 histories first let another stream write 1.3 MB, so the threads' tails are far from the end of the log; the default thread must be obtainable and accept a post) and judged (incl. C04's cache comparison once more on the continued store for the threads that were appended to); evaluations = crash states restarted; distinct = distinct abstract crash state (files per class, lines per class, torn-frame flag, next effect class); exhaustive within each history, sampled across histories".into()
+        "one run = one seeded history of 3-16 store operations (messages incl. frames larger than the 8 KiB writer buffer, full runs with compile/side-effects/cursor, runs with reply frames and a session snapshot, manual and automatic compaction, branch, handoff) executed once; EVERY mutating file-system effect boundary of the run (log, each sidecar and index, index.json tmp+rename, artifact tmp+rename) is a crash point: the captured on-disk state is restarted with a fresh EventLog+ContinuityStore, replayed, continued with further appends (1 in 8 histories first let another stream write 1.3 MB - a third of them 5.2 MB -, so the threads' tails are far from the end of the log; the default thread must be obtainable and accept a post - asked for first thing after the restart in half of the crash states, after the other appends in the other half) and judged (incl. C04's cache comparison once more on the continued store for the threads that were appended to); evaluations = crash states restarted; distinct = distinct abstract crash state (files per class, lines per class, torn-frame flag, next effect class); exhaustive within each history, sampled across histories".into()
     }
     fn assumptions(&self) -> Vec<String> {
         vec![
